@@ -129,4 +129,13 @@ Termination == <>(inflight = {} /\ \A o \in Nodes : todo[o] = 0)
 Topo == [edges |-> Edges, origins |-> Origins]
 DumpEdge == PrintT("EDGE " \o ToJson(View) \o "\t" \o ToJson(act') \o "\t" \o ToJson(View'))
 DumpStep == PrintT("OUT " \o ToJson([a |-> act', topo |-> Topo, first |-> (seen = {} /\ inflight = {} /\ act'.name = "announce" /\ \A o \in Nodes : todo[o] = (IF o \in Origins THEN (IF PerLink THEN Deg(o) ELSE 1) ELSE 0))]))
+(***************************************************************************)
+(* `act` (the step's observed outcome) is not part of the VIEW: as a state  *)
+(* predicate an invariant over act would be evaluated only for the first     *)
+(* representative TLC finds of each view class.  The action forms below are  *)
+(* evaluated for EVERY transition TLC generates; the configurations that use *)
+(* a VIEW check these.                                                       *)
+(***************************************************************************)
+OncePerPathA == [][OncePerPath']_vars
+
 =============================================================================
